@@ -1,2 +1,203 @@
-(* C04H — edits through handles obtained earlier (store-level counterpart of C04/C05). *)
-From V.model Require Import Base Deb822Lex Deb822Parse Deb822Edit Deb822Store.
+(* C04H — C04 and C05 through HANDLES: edits issued through paragraph handles obtained at any
+   earlier time see, and are seen by, the document.  Statements only; proofs in
+   proofs/Deb822StoreP.v (the store: detach / attach / splice_children and how they re-base
+   handles), Deb822StoreOpsP.v (splice forms, ensure_trailing_newline), Deb822StoreParaP.v
+   (Paragraph::{set, insert, remove, rename} through a handle at any path of any tree),
+   Deb822StoreDocP.v (paragraphs().nth, add/insert/remove_paragraph), Deb822HandlesP.v (the
+   refinement, histories, C04/C05).
+
+   model/Deb822Store.v is the editing API of src/lossless.rs as the code is written, over a STORE
+   of mutable trees with re-based handles (rowan 0.16.1's red layer as the code experiences it;
+   the same store as RelEdit.v of C11): splice_children / detach / attach_child, lazy sibling
+   iteration that ends at a detached node, index(), new_root_mut; a register machine [hop] says
+   through which handle, obtained when, every edit goes.  It is tied to the real code by the
+   deb822-store stream (harness/src/s_store.rs, runner/s_store.ml).
+   model/Deb822Handles.v is the specification: the abstract state is the document tree of the
+   PURE model of C04/C05 (Deb822Edit.v), the detached paragraphs, and for every register what its
+   handle denotes — [Live n]: the paragraph that is currently the n-th of the document, [Dead j]:
+   a paragraph that is not (any more) part of it.  [hstep] applies the pure model's tstep2 at the
+   position the handle's paragraph currently has and shifts the positions of the other handles
+   (shift_insert / shift_remove); [htrace] is the list of pure operations the document undergoes.
+
+   What the code does with a stale handle (its paragraph was removed by remove_paragraph): the
+   paragraph lives on as a detached tree; set / insert / remove / rename through the handle edit
+   that tree and nothing else.  It is observable through the handles of that paragraph only
+   (Paragraph::to_string, items, ...), never in the document: [Dead j] in the theorems below.
+   No operation of this API makes a handle silently stop aliasing: all edits are in place
+   (no `self.0 = SyntaxNode::new_root_mut(..)`), unlike relations.rs (C11).
+
+   Domain: documents whose root has only nodes as children [doc_ok]: every parsed text, every
+   document built by the constructors, every live document (C04H_start).  Deb822 is not Clone, so
+   there is one document handle (register 0); paragraph handles are unlimited. *)
+From V.model Require Import Base Deb822Lex Deb822Parse Grammar Lossy Deb822Edit LiveDoc Deb822Store Deb822Handles.
+From V.proofs Require Import Deb822EditP LiveDocP LiveParaP.
+From V.proofs Require Import Deb822StoreP Deb822StoreOpsP Deb822StoreParaP Deb822StoreDocP Deb822HandlesP.
+
+(* 1. One instruction.  R st a: register 0 holds the root of the tree of the document a_doc a (a doc_ok tree); the detached paragraphs a_dead a are trees of their own; every paragraph register holds the handle its abstract value denotes ((tree of the document, [slot of the n-th paragraph]) for Live n, the root of the j-th detached tree for Dead j).  Every instruction runs without panic and re-establishes R for hstep: (1) no panic, (2) the root tree is the pure model's, (3) every handle denotes the same paragraph node, at its shifted position, or the detached paragraph *)
+Theorem C04H_step : forall o st a, R st a ->
+  exists x st', run_hop o st = Ok (x, st') /\ R st' (hstep o a).
+Proof. exact hop_refines. Qed.
+Check C04H_step : forall o st a, R st a ->
+  exists x st', run_hop o st = Ok (x, st') /\ R st' (hstep o a).
+Print Assumptions C04H_step.
+
+(* 2. Histories: any program (handles taken by paragraphs().nth(i) at any time, returned by add/insert_paragraph, free-standing paragraphs; edits through any of them; paragraphs added, inserted, removed), from any doc_ok document: no panic; the root tree is fold_left tstep2 of the pure model over the trace (each edit applied at the position its handle's paragraph has at that moment); through every register one sees the paragraph its abstract value denotes *)
+Theorem C04H_history : forall prog t nregs, doc_ok t ->
+  let a0 := astart t nregs in
+  exists st', run_hops prog (start_state t nregs) = Ok st' /\
+              root_tree st' = Ok (fold_left tstep2 (htrace prog a0) t) /\
+              (forall k, reg_tree k st' = denotes (hsteps prog a0) k) /\
+              a_doc (hsteps prog a0) = fold_left tstep2 (htrace prog a0) t.
+Proof. exact handles_history. Qed.
+Check C04H_history : forall prog t nregs, doc_ok t ->
+  let a0 := astart t nregs in
+  exists st', run_hops prog (start_state t nregs) = Ok st' /\
+              root_tree st' = Ok (fold_left tstep2 (htrace prog a0) t) /\
+              (forall k, reg_tree k st' = denotes (hsteps prog a0) k) /\
+              a_doc (hsteps prog a0) = fold_left tstep2 (htrace prog a0) t.
+Print Assumptions C04H_history.
+
+(* what is observed in a state: Deb822::to_string() prints the abstract document; Paragraph::to_string() through register k prints the paragraph that is currently the n-th one (Live n), or the detached paragraph (Dead j) *)
+Theorem C04H_observe : forall st a, R st a -> root_tree st = Ok (a_doc a) /\ forall k, reg_tree k st = denotes a k.
+Proof. exact R_observe. Qed.
+Check C04H_observe : forall st a, R st a -> root_tree st = Ok (a_doc a) /\ forall k, reg_tree k st = denotes a k.
+Print Assumptions C04H_observe.
+
+(* starting points: every parsed text (with or without syntax errors), every live document, every document built from pairs (incl. Deb822::new()) *)
+Theorem C04H_start : (forall s t n, from_str_relaxed s = Ok (t, n) -> doc_ok t) /\
+  (forall d, doc_ok (ltree_of d)) /\
+  (forall l, doc_ok (deb822_of_paragraphs (map paragraph_of_pairs l))) /\
+  (forall t nregs, doc_ok t -> R (start_state t nregs) (astart t nregs)).
+Proof. exact (conj parsed_doc_ok (conj live_doc_ok (conj built_doc_ok R_start))). Qed.
+Check C04H_start : (forall s t n, from_str_relaxed s = Ok (t, n) -> doc_ok t) /\
+  (forall d, doc_ok (ltree_of d)) /\
+  (forall l, doc_ok (deb822_of_paragraphs (map paragraph_of_pairs l))) /\
+  (forall t nregs, doc_ok t -> R (start_state t nregs) (astart t nregs)).
+Print Assumptions C04H_start.
+
+(* 3. (4) of the task: C05_history for histories through earlier handles: from any live document, when the arguments of the edits that reach the document are in the domain (ops_ok2 over the trace), the store's root tree is the live layout of the abstract history, reports the list-model content, and its text re-reads to the same non-empty paragraphs *)
+Theorem C05_handles_history : forall prog d nregs, lwf d = true ->
+  let a0 := astart (ltree_of d) nregs in
+  let tr := htrace prog a0 in
+  ops_ok2 d tr ->
+  exists st' t', run_hops prog (start_state (ltree_of d) nregs) = Ok st' /\
+    root_tree st' = Ok t' /\
+    t' = ltree_of (fold_left astep2 tr d) /\ lwf (fold_left astep2 tr d) = true /\
+    doc_items t' = fold_left sstep2 tr (doc_items (ltree_of d)) /\
+    (forall k, reg_tree k st' = denotes (hsteps prog a0) k) /\
+    exists t'', from_str (text t') = Ok t'' /\ doc_items t'' = nonempty_paras (doc_items t').
+Proof. exact handles_C05. Qed.
+Check C05_handles_history : forall prog d nregs, lwf d = true ->
+  let a0 := astart (ltree_of d) nregs in
+  let tr := htrace prog a0 in
+  ops_ok2 d tr ->
+  exists st' t', run_hops prog (start_state (ltree_of d) nregs) = Ok st' /\
+    root_tree st' = Ok t' /\
+    t' = ltree_of (fold_left astep2 tr d) /\ lwf (fold_left astep2 tr d) = true /\
+    doc_items t' = fold_left sstep2 tr (doc_items (ltree_of d)) /\
+    (forall k, reg_tree k st' = denotes (hsteps prog a0) k) /\
+    exists t'', from_str (text t') = Ok t'' /\ doc_items t'' = nonempty_paras (doc_items t').
+Print Assumptions C05_handles_history.
+
+(* and C04_history for programs that only edit fields (through any handles) *)
+Theorem C04_handles_history : forall prog d nregs, lwf d = true -> forallb field_only prog = true ->
+  let a0 := astart (ltree_of d) nregs in
+  let tr := fops_of (htrace prog a0) in
+  ops_ok d tr ->
+  exists st' t', run_hops prog (start_state (ltree_of d) nregs) = Ok st' /\
+    root_tree st' = Ok t' /\
+    t' = ltree_of (fold_left astep tr d) /\ lwf (fold_left astep tr d) = true /\
+    doc_items t' = fold_left sstep tr (doc_items (ltree_of d)) /\
+    (forall k, reg_tree k st' = denotes (hsteps prog a0) k) /\
+    exists t'', from_str (text t') = Ok t'' /\ doc_items t'' = nonempty_paras (doc_items t').
+Proof. exact handles_C04. Qed.
+Check C04_handles_history : forall prog d nregs, lwf d = true -> forallb field_only prog = true ->
+  let a0 := astart (ltree_of d) nregs in
+  let tr := fops_of (htrace prog a0) in
+  ops_ok d tr ->
+  exists st' t', run_hops prog (start_state (ltree_of d) nregs) = Ok st' /\
+    root_tree st' = Ok t' /\
+    t' = ltree_of (fold_left astep tr d) /\ lwf (fold_left astep tr d) = true /\
+    doc_items t' = fold_left sstep tr (doc_items (ltree_of d)) /\
+    (forall k, reg_tree k st' = denotes (hsteps prog a0) k) /\
+    exists t'', from_str (text t') = Ok t'' /\ doc_items t'' = nonempty_paras (doc_items t').
+Print Assumptions C04_handles_history.
+
+(* 4. The store level on ANY tree: Paragraph::set through a handle at any path p of any tree tid rewrites exactly the children of the node at p by Deb822Edit.para_set (visible through every other handle into that tree), leaves all other trees alone and moves no handle that is not strictly below that node (para_frame); the same for insert, remove, rename (Deb822StoreParaP.v) *)
+Theorem C04H_paragraph_set_store : forall ts rs r tid ri T p k cs key v,
+  nth_error rs r = Some (Some (mk_hnd tid p)) ->
+  nth_error ts tid = Some (mk_slot ri T) -> get_path T p = Some (Node k cs) ->
+  exists ts' F,
+    runs (paragraph_set r key v) (mk_state ts rs) tt (mk_state ts' (map (option_map F) rs)) /\
+    nth_error ts' tid = Some (mk_slot ri (upd_path T p (fun _ => Node k (para_set cs key v)))) /\
+    para_frame ts ts' F tid p.
+Proof. exact paragraph_set_spec. Qed.
+Check C04H_paragraph_set_store : forall ts rs r tid ri T p k cs key v,
+  nth_error rs r = Some (Some (mk_hnd tid p)) ->
+  nth_error ts tid = Some (mk_slot ri T) -> get_path T p = Some (Node k cs) ->
+  exists ts' F,
+    runs (paragraph_set r key v) (mk_state ts rs) tt (mk_state ts' (map (option_map F) rs)) /\
+    nth_error ts' tid = Some (mk_slot ri (upd_path T p (fun _ => Node k (para_set cs key v)))) /\
+    para_frame ts ts' F tid p.
+Print Assumptions C04H_paragraph_set_store.
+
+(* the helper ensure_trailing_newline (last_token, a NEWLINE token taken out of a new EMPTY_LINE tree and spliced in after it) computes Deb822Edit.ensure_nl *)
+Theorem C04H_ensure_trailing_newline_store : forall ts rs r tid ri T p k cs,
+  nth_error rs r = Some (Some (mk_hnd tid p)) ->
+  nth_error ts tid = Some (mk_slot ri T) -> get_path T p = Some (Node k cs) ->
+  exists ts' F,
+    runs (ensure_trailing_newline r) (mk_state ts rs) tt (mk_state ts' (map (option_map F) rs)) /\
+    length ts <= length ts' /\
+    nth_error ts' tid = Some (mk_slot ri (upd_path T p (fun _ => Node k (ensure_nl_list cs)))) /\
+    (forall j, j <> tid -> j < length ts -> nth_error ts' j = nth_error ts j) /\
+    (forall g, h_tid g < length ts -> near tid p (length cs) g -> F g = g).
+Proof. exact ensure_trailing_newline_spec. Qed.
+Check C04H_ensure_trailing_newline_store : forall ts rs r tid ri T p k cs,
+  nth_error rs r = Some (Some (mk_hnd tid p)) ->
+  nth_error ts tid = Some (mk_slot ri T) -> get_path T p = Some (Node k cs) ->
+  exists ts' F,
+    runs (ensure_trailing_newline r) (mk_state ts rs) tt (mk_state ts' (map (option_map F) rs)) /\
+    length ts <= length ts' /\
+    nth_error ts' tid = Some (mk_slot ri (upd_path T p (fun _ => Node k (ensure_nl_list cs)))) /\
+    (forall j, j <> tid -> j < length ts -> nth_error ts' j = nth_error ts j) /\
+    (forall g, h_tid g < length ts -> near tid p (length cs) g -> F g = g).
+Print Assumptions C04H_ensure_trailing_newline_store.
+
+(* Non-vacuity: the document "#x\nA: 1\n\nB: 2\n\nC: 3" (a leading comment, no final newline) and a
+   program with four handles taken at different times:
+     h0 = paragraphs().nth(2)            (C, before any edit)
+     h1 = insert_paragraph(0)            (the returned handle)
+     h2 = paragraphs().nth(2)            (taken after the insert: now B)
+     remove_paragraph(1)                 (A goes)
+     h0.set(X, x); h1.set(Y, y); h2.set(Z, z)
+     h3 = paragraphs().nth(0)            (a second handle to the inserted paragraph)
+     remove_paragraph(0)                 (h1 and h3 are stale now)
+     h3.insert(W, w)                     (edits the detached paragraph)
+     h1 = add_paragraph(); h1.rename(Q, R) (not found); h0.remove(C)
+   The trace of pure operations, the final text, the content and what each handle shows are
+   computed on the store machine and agree with the abstract history: h0 is Live 1, h2 Live 0,
+   h1 Live 2 (the added paragraph), h3 Dead 1 showing Y: y, W: w — which the document does not. *)
+Example C04H_ex :
+  let f1 := mk_field [65]%N [32]%N [49]%N [] true in
+  let f2 := mk_field [66]%N [32]%N [50]%N [] true in
+  let f3 := mk_field [67]%N [32]%N [51]%N [] false in
+  let d := lift [BComment [120]%N true; BPara f1 []; BBlank; BPara f2 []; BBlank; BPara f3 []] in
+  let prog := [HPara 0 2; HInsertP 1 0; HPara 2 2; HRemoveP 1; HSet 0 [88]%N [120]%N; HSet 1 [89]%N [121]%N; HSet 2 [90]%N [122]%N;
+               HPara 3 0; HRemoveP 0; HInsert 3 [87]%N [119]%N; HAdd 1; HRename 1 [81]%N [82]%N; HRemove 0 [67]%N] in
+  let a0 := astart (ltree_of d) 4 in
+  lwf d = true /\ ops_ok2 d (htrace prog a0) /\
+  htrace prog a0 = [DInsert 0; DRemove 1; DF (OSet 2 [88]%N [120]%N); DF (OSet 0 [89]%N [121]%N); DF (OSet 1 [90]%N [122]%N);
+                    DRemove 0; DAdd; DF (ORename 2 [81]%N [82]%N); DF (ORemove 1 [67]%N)] /\
+  a_regs (hsteps prog a0) = [Some (Live 1); Some (Live 2); Some (Live 0); Some (Dead 1)] /\
+  exists st', run_hops prog (start_state (ltree_of d) 4) = Ok st' /\
+    option_map text (match root_tree st' with Ok t => Some t | _ => None end)
+      = Some [35; 120; 10; 66; 58; 32; 50; 10; 90; 58; 32; 122; 10; 10; 88; 58; 32; 120; 10; 10]%N /\
+    map (fun k => option_map items (reg_tree k st')) [0; 1; 2; 3]
+      = [Some [([88], [120])]; Some []; Some [([66], [50]); ([90], [122])]; Some [([89], [121]); ([87], [119])]]%N.
+Proof.
+  cbv zeta. split; [vm_compute; reflexivity|]. split.
+  { vm_compute htrace. cbn [ops_ok2 op_ok2 op_ok]. repeat split; try exact I; try (vm_compute; reflexivity).
+    intros f Hf. match goal with H : nth_para _ _ = Some _ |- _ => vm_compute in H; inversion H; subst end. vm_compute in Hf. discriminate. }
+  split; [vm_compute; reflexivity|]. split; [vm_compute; reflexivity|].
+  eexists. split; [vm_compute; reflexivity|]. split; vm_compute; reflexivity.
+Qed.
